@@ -1038,6 +1038,9 @@ class DiskRefsContainer(RefsContainer):
                     f.seek(0)
                     for sha, name in read_packed_refs(f):
                         self._packed_refs[name] = sha
+                    # Without the "peeled" trait the file says nothing about
+                    # which refs are tags: no peeled values are known.
+                    self._peeled_refs = None
                 # Record which file the cache was populated from, so that a
                 # later replacement of it can be detected. Stat the open file
                 # rather than the path to avoid picking up a newer file that
